@@ -10,6 +10,7 @@ R3  condition trumps: nsync_mu_wait_with_deadline returns 0 exactly when the las
 R4  no unbounded re-sleep: inside one wait the cancellable sleep is entered only while the outcome is still 0, and it is always the deadline-carrying
     primitive that receives the caller's abs_deadline and cancel_note.
 R5  once the note is notified no further wake-up is needed: the waiter registers on the cancel note only after re-reading the note's state under note_mu.
+R6  ... and it always registers: every path to a sleep of the cancellable wait (note non-NULL, found un-notified) has put the record on the note's list.
 Wall-clock promptness is not decided."""
 from .. import util, mumodel, ir as IR
 from ..bounds import _guards, _norm_cmp
@@ -157,6 +158,21 @@ def run(ctx, rep):
                                       site='nsync_sem_wait_with_cancel_/stale-registration'))
     if n5 == 0:
         raise AnalysisBroken('C05.R5: registration on the cancel note not found')
+    # ---- R6: every cancellable sleep is registered on the note.  The entry is interpreted with a non-NULL cancel note; on each path that
+    # reaches a semaphore wait the thread's record must be on cancel_note->waiters and visible (the list mutex released after the append):
+    # a note can be notified explicitly at any moment - whatever its expiry - and the notifier wakes only the records on that list
+    rep.rule('C05.R6', 'every sleep of the cancellable wait is registered on the cancel note (explicit notification can come at any time)')
+    n6 = 0
+    for r in oeng.records:
+        if r.kind == 'prim' and r.entry == 'nsync_sem_wait_with_cancel_' and r.callee in ('nsync_mu_semaphore_p', 'nsync_mu_semaphore_p_with_deadline'):
+            n6 += 1
+            reg = any(isinstance(k, tuple) and k[0] == 'enq_local' and v == 2 for k, v in r.ghost.items())
+            rep.instance('C05.R6', 'sleep at %s, registered on the note: %s' % (r.where(), reg)); rep.oblig('C05.R6', reg)
+            if not reg:
+                rep.violate(Violation('C05.R6', r.where(), 'the cancellable wait can sleep without its record being on the cancel note\'s waiter list: an nsync_note_notify issued meanwhile wakes nobody and the call sleeps on until its deadline although the note is notified',
+                                      site='nsync_sem_wait_with_cancel_/unregistered-sleep'))
+    if n6 == 0:
+        raise AnalysisBroken('C05.R6: no sleep found in the cancellable wait')
     rep.floor('C05.R1', 10)
     rep.floor('C05.R3', 4)
     rep.assumptions += ['wall-clock promptness is not decided', 'C12/C15 decide when the semaphore wait itself reports ETIMEDOUT']
